@@ -4,6 +4,8 @@ import ColoVerif.Model.IncrNet
 import ColoVerif.Gen.OrientTables
 import ColoVerif.Proofs.C09Hpwl
 import ColoVerif.Proofs.IncrNetRun
+import ColoVerif.Proofs.IncrNetPinOffsets
+import ColoVerif.Proofs.IncrNetPlacer
 /-
 C09 — wirelength is geometrically exact and incrementally consistent.
 
@@ -185,6 +187,59 @@ are good whenever every pin's cell index is below the number of cells. -/
 theorem builder_models_good (K : Nat) (Ls : List (List Pin1)) (pos : List Int) (hK : pos.length = K)
     (hrange : ∀ l ∈ Ls, ∀ p ∈ l, p.1 < K) : Good ((Ls.foldl Builder.addNet (Builder.new K)).build pos) :=
   builder_Good K Ls pos hK hrange
+
+open IncrNet in
+/-- **The cell→pin table is the exact transpose of the net→pin table, offsets included.**
+`finalize` (counting sort) fills `cellNets_` and the parallel `cellPinOffsets_`: for every model built
+by `x/yTopology` (all cells or any subset) and after any update sequence, the list of
+`(pinNet(cell, i), cellPinOffset(cell, i))` for `i < nbCellPins(cell)` is — for *every* cell index —
+exactly the list of `(net, offset)` of the pins of that cell in the net→pin table, in net order (then
+pin order within the net); cells without pins and out-of-range indices get the empty list. -/
+theorem cell_pin_table_is_transpose (c : Circuit) (cells : List Nat) (ops : List (Nat × Int)) (cell : Nat) :
+    cellPinList (run (xTopology c cells) ops) cell
+      = ((run (xTopology c cells) ops).allPins.filter (fun p => p.2.1 == cell)).map (fun p => (p.1, p.2.2)) ∧
+    cellPinList (run (yTopology c cells) ops) cell
+      = ((run (yTopology c cells) ops).allPins.filter (fun p => p.2.1 == cell)).map (fun p => (p.1, p.2.2)) :=
+  ⟨run_wfOff _ ops (topology_wfOff _ _ c cells) cell, run_wfOff _ ops (topology_wfOff _ _ c cells) cell⟩
+
+open IncrNet in
+/-- … and for every model built directly with `IncrNetModelBuilder` from nets whose cells are in range. -/
+theorem builder_cell_pin_table_is_transpose (K : Nat) (Ls : List (List Pin1)) (pos : List Int) (hK : pos.length = K)
+    (hrange : ∀ l ∈ Ls, ∀ p ∈ l, p.1 < K) (ops : List (Nat × Int)) (cell : Nat) :
+    cellPinList (run ((Ls.foldl Builder.addNet (Builder.new K)).build pos) ops) cell
+      = ((run ((Ls.foldl Builder.addNet (Builder.new K)).build pos) ops).allPins.filter (fun p => p.2.1 == cell)).map
+          (fun p => (p.1, p.2.2)) :=
+  run_wfOff _ ops (builder_wfOff K Ls pos hK hrange) cell
+
+open IncrNet in
+/-- **`DetailedPlacer::value()`.**  The placer's two models (`PlacerModels.build` = its constructor,
+`PlacerModels.updateCellPos` = `DetailedPlacer::updateCellPos(c, pos)`): right after construction
+`value()` is `Circuit::hpwl` of the circuit; after ANY history of `updateCellPos(cell, (x, y))` both
+models are consistent (`IncrNetModel::check()` passes), `value()` is the from-scratch wirelength
+Σ nets (x-extent + y-extent) of the pin positions at the *current* cell positions, and those positions are
+the circuit's positions overwritten by the updates in order. -/
+theorem placer_value_is_incremental (c : Circuit) (ops : List (Nat × Int × Int)) :
+    (PlacerModels.build c).value = c.hpwl ∧
+    ((PlacerModels.build c).run ops).value
+      = scratchValue ((PlacerModels.build c).run ops).x + scratchValue ((PlacerModels.build c).run ops).y ∧
+    ((PlacerModels.build c).run ops).x.consistent = true ∧ ((PlacerModels.build c).run ops).y.consistent = true ∧
+    ((PlacerModels.build c).run ops).x.cellPos
+      = applyOps (c.cells.map (·.x) ++ [0]) (ops.map fun o => (o.1, o.2.1)) ∧
+    ((PlacerModels.build c).run ops).y.cellPos
+      = applyOps (c.cells.map (·.y) ++ [0]) (ops.map fun o => (o.1, o.2.2)) := by
+  have hx := incr_inv (xTopologyAll c) (topology_Good _ _ c _) (ops.map fun o => (o.1, o.2.1))
+  have hy := incr_inv (yTopologyAll c) (topology_Good _ _ c _) (ops.map fun o => (o.1, o.2.2))
+  have hpx := (incr_init c (List.range c.cells.length)).2.2.2.2.1
+  have hpy := (incr_init c (List.range c.cells.length)).2.2.2.2.2
+  rw [cells_map_range] at hpx hpy
+  refine ⟨detailed_value_is_hpwl c _, ?_, ?_, ?_, ?_, ?_⟩
+  · show ((PlacerModels.build c).run ops).x.value + ((PlacerModels.build c).run ops).y.value = _
+    rw [placer_run_x, placer_run_y]
+    exact congr (congrArg _ hx.2.2.2.1) hy.2.2.2.1
+  · rw [placer_run_x]; exact hx.2.2.1
+  · rw [placer_run_y]; exact hy.2.2.1
+  · rw [placer_run_x]; exact hx.2.2.2.2.1.trans (congrArg (fun l => applyOps l _) hpx)
+  · rw [placer_run_y]; exact hy.2.2.2.2.1.trans (congrArg (fun l => applyOps l _) hpy)
 
 /-- non-vacuity: a concrete good model (net with a repeated cell, a fixed-only net, a dropped
 single-pin net; subset `[1]`), updated twice -/
